@@ -348,6 +348,11 @@ def check_method(case, ctx: Ctx):
         ctx.label("refusal_" + case["refuse"])
         ctx.nt()
         ctx.refused(f"{case['entry']}(bins={bins!r}, {case['kwargs']!r}) on {d}-column data", build)
+        if case["refuse"] == "bins_count":
+            # ... one item too many and one too few as well, whatever length was generated
+            for k_ in (d + 1, d - 1):
+                if k_ >= 1:
+                    ctx.refused(f"h(bins=list of {k_} counts) on {d}-column data", physt.h, arr, [3, 2, 4, 2, 3][:k_])
         return
     ok, h = ctx.maybe(build)
     if not ok:
